@@ -42,14 +42,14 @@ pub fn gen_float(rng: &mut Rng, sw: &Swarm) -> Op {
         }
         6 => Op::new(&nm("special")).dst(d).n(rng.below(6) as i64).m(rng.below(100) as i64),
         7..=15 => Op::new(&nm(rng.pick(&["add", "sub", "mul", "div", "rem", "add", "sub", "mul"]))).a(a).b(b).dst(d).form(form(rng)),
-        16 | 17 => Op::new(&nm(rng.pick(&["addi", "subi", "muli", "divi"]))).a(a).b(b).dst(d).form(rng.below(9)),
+        16 | 17 => Op::new(&nm(rng.pick(&["addi", "subi", "muli", "divi", "addu", "subu", "mulu", "divu", "diveuclid"]))).a(a).b(b).dst(d).form(rng.below(12)),
         18 | 19 => Op::new(&nm(rng.pick(&["shl", "shr"]))).a(a).dst(d).n(rng.range(-70, 70)).form(form(rng)),
         20 => Op::new(&nm(rng.pick(&["neg", "abs", "signum"]))).a(a).dst(d).form(form(rng)),
         21 => Op::new(&nm("mulsign")).a(a).dst(d).n(rng.below(2) as i64).form(form(rng)),
         22 => Op::new(&nm(rng.pick(&["sqr", "cubic", "sqrt", "inv"]))).a(a).dst(d).form(form(rng)),
         23 => Op::new(&nm("powi")).a(a).dst(d).n(rng.range(-6, 12)).form(rng.below(2)),
-        24 => Op::new(&nm(rng.pick(&["exp", "ln", "expm1", "ln1p"]))).a(a).dst(d),
-        25 | 26 => Op::new(&nm(rng.pick(&["trunc", "floor", "ceil", "round", "fract", "splitpoint"]))).a(a).dst(d).form(form(rng)),
+        24 => Op::new(&nm(rng.pick(&["exp", "ln", "expm1", "ln1p", "powf"]))).a(a).b(b).dst(d).form(rng.below(2)),
+        25 | 26 => Op::new(&nm(rng.pick(&["trunc", "floor", "ceil", "round", "fract", "splitpoint", "split"]))).a(a).dst(d).form(form(rng)),
         27 => match rng.below(4) {
             0 | 1 => Op::new(&nm(rng.pick(&["toint", "tryint"]))).a(a).dst(d),
             2 => Op::new(&nm("asint")).a(a).dst(d).form(rng.below(8)),
@@ -60,7 +60,13 @@ pub fn gen_float(rng: &mut Rng, sw: &Swarm) -> Op {
         31 => Op::new(&nm("ulp")).a(a).dst(d),
         32 => Op::new(&nm("intoparts")).a(a).dst(d).form(form(rng)),
         33 => Op::new(&nm("str")).a(a).dst(d).form(rng.below(4)),
-        34 => Op::new(&nm("fmt")).a(a).form(rng.below(6)),
+        34 => {
+            if rng.chance(2, 3) {
+                Op::new(&nm("fmt")).a(a).form(rng.below(6))
+            } else {
+                Op::new(&nm("sum")).dst(d).form(rng.below(6))
+            }
+        }
         35 => {
             if rng.chance(2, 3) {
                 Op::new(&nm("query")).a(a).b(b)
@@ -69,7 +75,10 @@ pub fn gen_float(rng: &mut Rng, sw: &Swarm) -> Op {
             }
         }
         36 | 37 => {
-            let name = rng.pick(&["fd.todec", "fd.tobin", "fd.rounding", "fd.viahex", "fd.viaoct", "fd.todecp", "fd.tobinp"]);
+            let name = rng.pick(&["fd.todec", "fd.tobin", "fd.rounding", "fd.viahex", "fd.viaoct", "fd.todecp", "fd.tobinp", "fd.rel16", "fd.rel9", "fd.rel4"]);
+            if name.starts_with("fd.rel") {
+                return Op::new(name).a(a).b(b).n(rng.below(200) as i64).m(rng.below(400) as i64);
+            }
             let o = Op::new(name).a(a).dst(d);
             if name.ends_with('p') {
                 // explicit target precision, mostly smaller than what the source holds
@@ -109,7 +118,13 @@ pub fn gen_ratio(rng: &mut Rng, sw: &Swarm) -> Op {
             1 => Op::new(&nm("asint")).a(a).dst(d).form(rng.below(8)),
             _ => Op::new(&nm("asf")).a(a).form(rng.below(4)),
         },
-        24 => Op::new(&nm("fromint")).a(a).dst(d).form(rng.below(2)),
+        24 => {
+            if rng.chance(1, 2) {
+                Op::new(&nm("fromint")).a(a).dst(d).form(rng.below(2))
+            } else {
+                Op::new(&nm("zeroes")).a(a).b(b).c(slot(rng)).dst(d).form(rng.below(5))
+            }
+        }
         25 => Op::new(&nm(rng.pick(&["num", "den"]))).a(a).dst(d),
         26 => Op::new(&nm("intoparts")).a(a).dst(d).form(form(rng)),
         27 => Op::new(&nm("diveuclid")).a(a).b(b).dst(d).form(rng.below(3)),
@@ -117,7 +132,10 @@ pub fn gen_ratio(rng: &mut Rng, sw: &Swarm) -> Op {
         29 => Op::new(&nm("fromfloat")).a(a).dst(d),
         30 => Op::new(&nm("tof64")).a(a),
         31 => Op::new(&nm("str")).a(a).dst(d).n(rng.below(35) as i64).form(rng.below(2)),
-        32 => Op::new(&nm("fmt")).a(a).form(rng.below(4)),
+        32 => match rng.below(2) {
+            0 => Op::new(&nm("fmt")).a(a).form(rng.below(4)),
+            _ => Op::new(&nm("split")).a(a).dst(d).form(rng.below(3)),
+        },
         33 => Op::new(&nm("query")).a(a).b(b),
         34 => Op::new(rng.pick(&["r.relax", "r.asrelaxed", "x.canon"])).a(a).dst(d).form(form(rng)),
         35 => Op::new("r.hash").a(a).b(b),
